@@ -176,6 +176,17 @@ func (p *Planner) Close() { p.cancel() }
 
 // Plan normalises/validates like ExecutionEngine.Execute, plans and post-processes.
 func (p *Planner) Plan(operation, operationName string, variables []byte) (*Tree, *resolve.FetchTreeNode, error) {
+	t, _, n, err := p.plan(operation, operationName, variables)
+	return t, n, err
+}
+
+// PlanWithRaw also returns the planner's raw fetch list (before post-processing).
+func (p *Planner) PlanWithRaw(operation, operationName string, variables []byte) (*Tree, []*Fetch, error) {
+	t, raw, _, err := p.plan(operation, operationName, variables)
+	return t, raw, err
+}
+
+func (p *Planner) plan(operation, operationName string, variables []byte) (*Tree, []*Fetch, *resolve.FetchTreeNode, error) {
 	l := p.lab
 	req := &graphql.Request{Query: operation, OperationName: operationName}
 	if len(bytes.TrimSpace(variables)) > 0 {
@@ -190,41 +201,49 @@ func (p *Planner) Plan(operation, operationName string, variables []byte) (*Tree
 			astvalidation.DirectivesAreInValidLocations(),
 			astvalidation.StreamAppliedToListFieldsOnly()))
 	if err != nil {
-		return nil, nil, err
+		return nil, nil, nil, err
 	}
 	if !nres.Successful {
-		return nil, nil, nres.Errors
+		return nil, nil, nil, nres.Errors
 	}
 	if vres, err := req.ValidateForSchema(l.Schema); err != nil {
-		return nil, nil, err
+		return nil, nil, nil, err
 	} else if !vres.Valid {
-		return nil, nil, vres.Errors
+		return nil, nil, nil, vres.Errors
 	}
 	if nres, err = req.Normalize(l.Schema, astnormalization.WithExtractVariables()); err != nil {
-		return nil, nil, err
+		return nil, nil, nil, err
 	} else if !nres.Successful {
-		return nil, nil, nres.Errors
+		return nil, nil, nil, nres.Errors
 	}
 	var report operationreport.Report
 	astnormalization.NewVariablesMapper().NormalizeOperation(req.Document(), l.Schema.Document(), &report)
 	if report.HasErrors() {
-		return nil, nil, report
+		return nil, nil, nil, report
 	}
 	planner, err := plan.NewPlanner(p.conf)
 	if err != nil {
-		return nil, nil, err
+		return nil, nil, nil, err
 	}
 	pl := planner.Plan(req.Document(), l.Schema.Document(), operationName, &report)
 	if report.HasErrors() {
-		return nil, nil, report
+		return nil, nil, nil, report
 	}
-	postprocess.NewProcessor(p.ppOpts...).Process(pl)
 	sp, ok := pl.(*plan.SynchronousResponsePlan)
 	if !ok {
-		return nil, nil, fmt.Errorf("not a synchronous plan: %T", pl)
+		return nil, nil, nil, fmt.Errorf("not a synchronous plan: %T", pl)
 	}
+	var raw []*Fetch
+	for _, it := range sp.Response.RawFetches {
+		rt, err := dumpTree(&resolve.FetchTreeNode{Kind: resolve.FetchTreeNodeKindSingle, Item: it})
+		if err != nil {
+			return nil, nil, nil, err
+		}
+		raw = append(raw, rt.Fetch)
+	}
+	postprocess.NewProcessor(p.ppOpts...).Process(pl)
 	t, err := dumpTree(sp.Response.Fetches)
-	return t, sp.Response.Fetches, err
+	return t, raw, sp.Response.Fetches, err
 }
 
 func staticText(t resolve.InputTemplate) string {
